@@ -76,6 +76,24 @@ func c01Enumerate(tier string, seed int64, emit func(string, any)) {
 	} else {
 		gen.Strings(gen.TokensCore, 3, func(s string) { one("tokens=3/core", s, two[:1]) })
 	}
+	// (i') raw bytes: every byte string of length <= 2 over all 256 byte values, and length 3 over a reduced byte set
+	bcfg := []drv.Cfg{cfgs[0]}
+	for a := 0; a < 256; a++ {
+		emit("bytes<=2", c01Case{Srcs: []string{string([]byte{byte(a)})}, Cfg: cfgs[0]})
+		for b := 0; b < 256; b++ {
+			emit("bytes<=2", c01Case{Srcs: []string{string([]byte{byte(a), byte(b)})}, Cfg: cfgs[0]})
+		}
+	}
+	if thorough {
+		set := []byte{0, 9, 10, 13, 30, ' ', '"', '\'', '(', ')', '*', '+', ',', '-', '.', '/', '1', ':', ';', '=', '?', '[', '\\', ']', '^', '`', 'a', 'd', '{', '|', '}', 0x7f, 0x80, 0xc3, 0xe4, 0xf0, 0xff}
+		for _, a := range set {
+			for _, b := range set {
+				for _, c := range set {
+					one("bytes=3", string([]byte{a, b, c}), bcfg)
+				}
+			}
+		}
+	}
 	// (ii) typed-operand matrix (named values from the prelude)
 	mcfg := cfgs
 	if !thorough {
